@@ -89,6 +89,34 @@ class SpyReg(RegressorMixin, SkBase):
         return np.full(len(X), round(self.mean_, 6))
 
 
+class ShiftReg(RegressorMixin, SkBase):
+    """mean of the training target plus a constant: the constant is a hyper-parameter a search can tune away"""
+    def __init__(self, shift=0.0):
+        self.shift = shift
+
+    def fit(self, X, y):
+        self.mean_ = float(np.mean(np.asarray(y, dtype=float)))
+        return self
+
+    def predict(self, X):
+        return np.full(len(X), self.mean_ + self.shift)
+
+
+class PickClf(ClassifierMixin, SkBase):
+    """predicts one class of the training labels: the most frequent one or the last one in sorted order"""
+    def __init__(self, pick="majority"):
+        self.pick = pick
+
+    def fit(self, X, y):
+        vals, counts = np.unique(np.asarray(y), return_counts=True)
+        self.classes_ = vals
+        self.choice_ = vals[np.argmax(counts)] if self.pick == "majority" else vals[-1]
+        return self
+
+    def predict(self, X):
+        return np.array([self.choice_] * len(X))
+
+
 CONFIGS = []
 for task in ("TSC", "TSR"):
     for cv in ("kfold2", "single", "presplit", "presplit+kfold2", "kfold3"):
@@ -111,6 +139,11 @@ def cases(tier, seed):
     picks = [CONFIGS[0], {"task": "TSC", "cv": "kfold2", "ns": 2, "nd": 2, "save": True, "pot": True}] + picks
     cid = 0
     picks = [dict(c, feat="permuted") if (j % 3 == 2) else (dict(c, feat="unsorted-default") if (j % 3 == 1 and j > 1) else c) for j, c in enumerate(picks)]
+    # strategies whose estimator is a hyper-parameter search / a scikit-learn pipeline around the estimator (both documented as accepted)
+    for j, cfg in enumerate(picks):
+        if j % 2 == 0 or tier == "thorough":
+            for store in ("HDD", "RAM"):
+                yield {"cfg": dict(cfg, feat=None), "store": store, "k": None, "id": 100000 + 2 * j + (store == "RAM"), "kind": "wrapped", "dseed": int(rng.integers(0, 2 ** 31))}
     for cfg in picks:
         K = _total_calls(cfg)
         for store in ("HDD", "RAM"):        # every configuration also runs once against the in-memory store
@@ -331,12 +364,79 @@ def run_case(case, ctx):
             ctx.tag("task:features-" + case["cfg"]["feat"])
 
 
+def _wrapped(case, ctx, base):
+    """the records of strategies built around a search / pipeline equal fitting a clone of THAT object (the one handed to the strategy) on the
+    fold's training instances"""
+    from sklearn.base import clone
+    from sklearn.model_selection import GridSearchCV, RandomizedSearchCV
+    from sklearn.pipeline import Pipeline
+    from sklearn.preprocessing import FunctionTransformer
+    from sktime.benchmarking.orchestration import Orchestrator
+    from sktime.benchmarking.results import HDDResults, RAMResults
+    from sktime.benchmarking.strategies import TSCStrategy, TSRStrategy
+    from sktime.benchmarking.tasks import TSCTask, TSRTask
+    cfg = case["cfg"]
+    ds = _datasets(cfg, case["dseed"])
+    clf = cfg["task"] == "TSC"
+    T, S = (TSCTask, TSCStrategy) if clf else (TSRTask, TSRStrategy)
+    # the inner estimator is configured with the value the search will (nearly always) reject
+    inner = (lambda: PickClf(pick="last")) if clf else (lambda: ShiftReg(shift=50.0))
+    grid = {"pick": ["majority", "last"]} if clf else {"shift": [0.0, 50.0]}
+    user = {"grid": GridSearchCV(inner(), grid, cv=2), "rand": RandomizedSearchCV(inner(), grid, n_iter=2, cv=2, random_state=0),
+            "pipe": Pipeline([("identity", FunctionTransformer(validate=False)), ("est", inner())]), "plain": inner()}
+    try:
+        strategies = [S(est, name=name) for name, est in user.items()]
+    except Exception as e:  # noqa
+        ctx.violation("strategy:documented-estimator-kind-refused:" + type(e).__name__, "a strategy refused a search / pipeline around a compatible estimator: %r" % e)
+        return
+    path = os.path.join(base, "wrapped") if case["store"] == "HDD" else None
+    if path:
+        os.makedirs(path)
+    res = HDDResults(path=path) if path else RAMResults()
+    orch = Orchestrator([T(target="target") for _ in ds], ds, strategies, _cv(cfg), res)
+    ok, _ = ctx.call("run:wrapped-estimators:exception", orch.fit_predict, overwrite_predictions=False, predict_on_train=cfg["pot"], save_fitted_strategies=False)
+    if not ok:
+        return
+    differs_from_inner = 0
+    for d in ds:
+        df = d.load()
+        Xall, yall = df[[c for c in df.columns if c != "target"]], np.asarray(df["target"])
+        for f, (tr, te) in enumerate(_folds(cfg, df)):
+            expected = {}
+            for name, est in user.items():
+                m = clone(est).fit(Xall.iloc[tr], yall[tr])
+                expected[name] = {"test": m.predict(Xall.iloc[te]), "train": m.predict(Xall.iloc[tr])}
+            bare = clone(inner()).fit(Xall.iloc[tr], yall[tr]).predict(Xall.iloc[te])
+            differs_from_inner += int(any(str(a) != str(b) for a, b in zip(expected["grid"]["test"], bare)))
+            for part, idx in (("test", te),) + ((("train", tr),) if cfg["pot"] else ()):
+                loaded = {p.strategy_name: p for p in res.load_predictions(f, part) if p.dataset_name == d.name}
+                for name in user:
+                    w = loaded.get(name)
+                    ctx.check("exactly-once", w is not None, "store:wrapped:record-missing", "no record for a strategy / dataset / fold / part", strategy=name, fold=f, part=part)
+                    if w is None:
+                        continue
+                    exp = expected[name][part]
+                    same = list(w.index) == [int(i) for i in idx] and len(w.y_pred) == len(exp) and all(
+                        (str(a) == str(b)) if clf else abs(float(a) - float(b)) <= 1e-9 * (1 + abs(float(b))) for a, b in zip(np.asarray(w.y_pred), exp))
+                    ctx.check("stored==predicted", same, "store:wrapped-estimator:record-differs-from-fitting-a-clone-of-the-given-estimator:" + name,
+                              "the record of a strategy built around a %s differs from fitting a clone of that object on the fold's training instances" % type(user[name]).__name__,
+                              strategy=name, dataset=d.name, fold=f, part=part, got=[str(v) for v in np.asarray(w.y_pred)[:4]], expected=[str(v) for v in exp[:4]])
+    ctx.tag("wrapped-estimators")
+    ctx.tag("wrapped:folds-where-the-search-differs-from-its-inner-estimator", differs_from_inner)
+    for m_ in ("fresh-clone", "load==stored", "idempotent", "overwrite.recomputes-all", "resume.untouched", "resume.no-needless-work", "resume.completes", "resume.final==uninterrupted"):
+        ctx.seen(m_, 0)
+    ctx.event(kind="wrapped", cfg=cfg, store=case["store"], differs_from_inner=differs_from_inner)
+    ctx.nontrivial = differs_from_inner > 0
+
+
 def _run_case(case, ctx):
     cfg, k = case["cfg"], case["k"]
     base = os.path.join(os.environ.get("VMON_HOME", "/verif"), ".cache", "c19", "%d-%d" % (os.getpid(), case["id"]))
     shutil.rmtree(base, ignore_errors=True)
     os.makedirs(base)
     try:
+        if case.get("kind") == "wrapped":
+            return _wrapped(case, ctx, base)
         if case["store"] == "RAM":
             return _ram(case, ctx)
         ref_path = os.path.join(base, "ref")
